@@ -4,14 +4,18 @@ From Coq Require Import List NArith ZArith Bool.
 Import ListNotations.
 From TV Require Import Lib.Obs C01.Model C01.Run C04.Model.
 
-(* input: (max_header_size, max_body_size, per-request override, chunk_size,
-           decompress_request, zlib answers in call order, TCP segments) *)
-Definition input := (nat * N * option N * nat * bool * list gz_entry * list (list N))%type.
+(* input: (max_header_size, max_body_size or None, the stream's max_buffer_size, per-request
+           override, chunk_size, decompress_request, zlib answers in call order, TCP segments) *)
+Definition input := (nat * option N * N * option N * nat * bool * list gz_entry * list (list N))%type.
+Definition mb_of (i : input) : option N := let '(_, mb, _, _, _, _, _, _) := i in mb.
+Definition sbuf_of (i : input) : N := let '(_, _, sb, _, _, _, _, _) := i in sb.
+Definition ov_of (i : input) : option N := let '(_, _, _, ov, _, _, _, _) := i in ov.
 Definition cfg_of (i : input) : cfg :=
-  let '(mh, mb, ov, cs, _, _, _) := i in
-  {| max_header := mh; max_body := mb; body_override := ov; chunk_pred := Nat.pred cs |}.
-Definition dec_of (i : input) : bool := let '(_, _, _, _, d, _, _) := i in d.
-Definition tbl_of (i : input) : list gz_entry := let '(_, _, _, _, _, t, _) := i in t.
+  let '(mh, mb, sb, ov, cs, _, _, _) := i in
+  {| max_header := mh; max_body := conn_max_body mb sb; body_override := ov; chunk_pred := Nat.pred cs;
+     no_keep_alive := false |}.
+Definition dec_of (i : input) : bool := let '(_, _, _, _, _, d, _, _) := i in d.
+Definition tbl_of (i : input) : list gz_entry := let '(_, _, _, _, _, _, t, _) := i in t.
 Definition segs_of (i : input) : list bytes := snd i.
 
 Definition trace (i : input) : list ev :=
